@@ -421,7 +421,9 @@ pub const GROW_MIN_STEPS: u64 = 60_000;
 
 fn scaled(spec: &NeedleSpec, pieces: &[Piece], base_n: usize, k: usize) -> (Vec<u8>, Vec<u8>) {
     let mut sp = spec.clone();
-    sp.len = spec.len * k;
+    // needles below 65 bytes are NOT scaled (1-byte needles, the vector searchers, Rabin-Karp: scaling the
+    // needle would change the strategy); only the haystack grows and the cost per byte must not
+    sp.len = if spec.len >= 65 { spec.len * k } else { spec.len };
     let needle = subgen::build_needle(&sp);
     // pieces with explicit lengths scale with k as well
     let ps: Vec<Piece> = pieces
@@ -549,12 +551,12 @@ pub fn steps_generic(ctx: &Ctx) -> Frag {
     let st = RefCell::new(St { frag, failed: None, max_min_ratio: 0.0, at: String::new(), max_per_byte: 0.0, closest: 0.0, closest_at: String::new() });
     let strat = (
         subgen::needle_spec(),
-        65usize..=256,
+        prop_oneof![2 => 1usize..=3, 2 => 4usize..=64, 6 => 65usize..=256],
         prop::collection::vec(subgen::piece(), 1..=5),
         prop::sample::select(vec![4096usize, 8192, 16384]),
         2u8..4, // complete traversals only: find_iter / rfind_iter
     );
-    let mut runner = crate::ctx::runner(ctx.stream_seed("steps-generated"), cases);
+    let mut runner = crate::ctx::runner_shrink(ctx.stream_seed("steps-generated"), cases, 48);
     let res = runner.run(&strat, |(mut spec, len, pieces, base_n, op)| {
         let mut s = st.borrow_mut();
         let s = &mut *s;
@@ -577,6 +579,9 @@ pub fn steps_generic(ctx: &Ctx) -> Frag {
             if steps > A * nm + B && bad.is_none() {
                 bad = Some(step_viol(ctx, &format!("{} steps for n+m = {} ({:.1} per byte) exceeds {}*(n+m)+{}", steps, nm, ck, A, B), 255, op, hay.len(), needle.len(), 0, &needle, &hay,
                     json!({"steps": steps, "gen": gen_json(&spec, &pieces, base_n), "scale": k})));
+            }
+            if bad.is_some() {
+                break; // the larger scales of a family that already failed would only cost time
             }
             if bad.is_none() && growth_trend(&c, &stp).is_some() {
                 bad = Some(step_viol(ctx, &format!("cost per byte keeps growing with the input: {:?} steps per byte at scales {:?} of (n = {}, m = {}) (x{} or more per x4 step, twice in a row, reaching {} per byte)", c.iter().map(|x| (x * 100.0).round() / 100.0).collect::<Vec<_>>(), &scales[..c.len()], base_n, len, GROW, CAP),
